@@ -227,6 +227,35 @@ var c12Specs = []c12Spec{
 		c.Add(a)
 		return &c12World{c: c, muts: []func(){func() { a.Route(a.GET("/z").To(routeTo("/a/z"))) }, func() { a.RemoveRoute("/a/y", "GET") }}, reqs: []h.Req{get("a", "y"), get("a", "z")}}
 	}},
+	{name: "route-vs-unroute", untouched: []int{2}, servers: [][]int{{0, 1, 2}}, mutators: [][]int{{0}, {1}}, world: func(jsr bool) *c12World {
+		// one goroutine adds a route while another removes a different route of the same service:
+		// neither update may be lost (the final probes ask for both)
+		c := c12Container(jsr)
+		a := newWS("/a", true, "/x", "/y")
+		c.Add(a)
+		return &c12World{c: c, muts: []func(){func() { a.Route(a.GET("/z").To(routeTo("/a/z"))) }, func() { a.RemoveRoute("/a/y", "GET") }}, reqs: []h.Req{get("a", "y"), get("a", "z"), get("a", "x")}}
+	}},
+	{name: "two-routes", untouched: []int{2}, servers: [][]int{{0, 1, 2}}, mutators: [][]int{{0}, {1}}, world: func(jsr bool) *c12World {
+		c := c12Container(jsr)
+		a := newWS("/a", true, "/x")
+		c.Add(a)
+		return &c12World{c: c, muts: []func(){func() { a.Route(a.GET("/z").To(routeTo("/a/z"))) }, func() { a.Route(a.GET("/y").To(routeTo("/a/y"))) }}, reqs: []h.Req{get("a", "y"), get("a", "z"), get("a", "x")}}
+	}},
+	{name: "route-inheriting-mime-types", untouched: []int{0}, servers: [][]int{{0, 1}}, mutators: [][]int{{0}}, world: func(jsr bool) *c12World {
+		// Consumes / Produces are declared on the WebService and inherited by its routes; a further
+		// inheriting route is added while a sibling is being negotiated
+		c := c12Container(jsr)
+		a := new(restful.WebService).Path("/a").Consumes(restful.MIME_JSON, restful.MIME_XML).Produces(restful.MIME_JSON, restful.MIME_XML)
+		a.SetDynamicRoutes(true)
+		a.Route(a.GET("/x").To(routeTo("/a/x")))
+		a.Route(a.POST("/x").To(routeTo("POST /a/x")))
+		c.Add(a)
+		withTypes := func(q h.Req) h.Req {
+			q.Hdr = append(q.Hdr, [2]string{"Accept", restful.MIME_XML}, [2]string{"Content-Type", restful.MIME_XML})
+			return q
+		}
+		return &c12World{c: c, muts: []func(){func() { a.Route(a.GET("/y").To(routeTo("/a/y"))) }}, reqs: []h.Req{withTypes(get("a", "x")), withTypes(get("a", "y"))}}
+	}},
 }
 
 func respKey(rec *h.Rec) string {
